@@ -10,11 +10,12 @@ import random
 from common import Report, ToolError, check_action_coverage, log, run_cases, run_tlc, std_main
 
 NONE = "<none>"
-NAMES = ["n1", "a.b", "x-y", "_u", "vpa", "vmk"]
-DEF = {"v1": "'vpa -x'", "v2": "'vpa \"o q\"'", "v3": "\"vpa 'o q'\"", "v4": "'vpa P1 | vio F r'", "v5": "'vmk 5 0'", "v6": "'vpa -s6'", "v7": "'vpa a=b'"}
+NAMES = ["n1", "a.b", "x-y", "_u", "vpa", "vmk", "7z"]
+DEF = {"v1": "'vpa -x'", "v2": "'vpa \"o q\"'", "v3": "\"vpa 'o q'\"", "v4": "'vpa P1 | vio F r'", "v5": "'vmk 5 0'", "v6": "'vpa -s6'", "v7": "'vpa a=b'",
+       "v8": "'\"vpa\" -q8'"}        # a value that begins with a quoted command word
 # what a value means: list of (program, fixed args); extra words of the use are appended to the last one
 MEAN = {"v1": [("pa", ["-x"])], "v2": [("pa", ["o q"])], "v3": [("pa", ["o q"])], "v4": [("pa", ["P1"]), ("io", ["F", "r"])],
-        "v5": [("mk", ["5", "0"])], "v6": [("pa", ["-s6"])], "v7": [("pa", ["a=b"])]}
+        "v5": [("mk", ["5", "0"])], "v6": [("pa", ["-s6"])], "v7": [("pa", ["a=b"])], "v8": [("pa", ["-q8"])]}
 REAL = {"vpa": "pa", "vmk": "mk"}
 
 
